@@ -23,7 +23,8 @@ type C08Case struct {
 	Mode    string   `json:"mode"`  // A (multistream) | B (member by member)
 	BufSrc  int      `json:"buf_src"`
 	Reads   []int    `json:"reads"`
-	Reuse   bool     `json:"reuse,omitempty"` // all members written by ONE gzip Writer, Reset between members
+	Reuse   bool     `json:"reuse,omitempty"`
+	Detour  bool     `json:"detour,omitempty"` // mode B: between two members the Reader is Reset onto an unrelated plain source and drained, then back onto the shared buffered source // all members written by ONE gzip Writer, Reset between members
 }
 
 func drawC08(t *rapid.T) C08Case {
@@ -54,6 +55,7 @@ func drawC08(t *rapid.T) C08Case {
 		}
 	}
 	c.BufSrc = rapid.SampledFrom([]int{16, 17, 64, 512, 4096, 4097, 65536}).Draw(t, "bufsrc")
+	c.Detour = c.Mode == "B" && rapid.IntRange(0, 2).Draw(t, "detour") == 0
 	if rapid.IntRange(0, 2).Draw(t, "reusewriter") == 0 {
 		c.Reuse = true
 		for i := range c.Members {
@@ -110,6 +112,17 @@ func checkC08(c C08Case) (labels []string, nontrivial bool, err error) {
 			if i == 0 {
 				r, e = fgzip.NewReader(src)
 			} else {
+				if c.Detour {
+					// an unrelated member from a plain (non-bufio) source in between: the caller's
+					// buffered source must not be touched by that
+					other, _ := Member{Enc: "std", Level: 6, Data: genText(40, 3)}.build("gzip")
+					if e := r.Reset(bytes.NewReader(other)); e != nil {
+						return nil, false, fmt.Errorf("detour Reset onto a plain source: %v", e)
+					}
+					if out, e := io.ReadAll(r); e != nil || len(out) != 40 {
+						return nil, false, fmt.Errorf("detour member: %d bytes, %v", len(out), e)
+					}
+				}
 				e = r.Reset(src)
 			}
 			if e != nil {
@@ -157,6 +170,9 @@ func checkC08(c C08Case) (labels []string, nontrivial bool, err error) {
 	}
 	if c.Reuse {
 		labels = append(labels, "members-written-by-one-reused-writer")
+	}
+	if c.Detour {
+		labels = append(labels, "detour-through-plain-source")
 	}
 	return labels, len(c.Members) >= 2, nil
 }
